@@ -1562,12 +1562,17 @@ def spell_cases(jobs):
                 return f"list[{expr(t['arg'])}]"
             if s == "Literal":
                 return "Literal[" + ", ".join(repr(v) for v in t["vals"]) + "]"
+            if s == "typeof":
+                return f"type[{expr(t['arg'])}]"
             raise ValueError(s)
 
         def param(t):
             return "x" if t["s"] == "missing" else f"x: {expr(t)}"
 
         argvals = [A(), B(), Asub(), C(), None, 1, 2, 3, "s", [A()], [1], []]
+        if "typeof" in json.dumps(job["s1"]):
+            # annotations of passed classes: the arguments are classes
+            argvals = [A, B, Asub, C, int, bool, str, type(None), object, A(), 1]
 
         def build(ctx, sa, sb):
             ns = dict(base)
